@@ -20,7 +20,16 @@ from vlib import enc_str
 
 # (Coq module, theorem) — the no-panic / totality family proved so far
 THEOREMS = [
-    ("DSP.C06", "C06_total"),
+    ("DSP.C06", "C06_total"),              # condition evaluation gives a verdict on every token list
+    ("DSP.C08", "C08_total"),              # index-faithful parser never panics (any text)
+    ("DSP.C08", "C08_total_fn"),           # parse_text gives Ok or an error kind on every text (never out of fuel)
+    ("DSP.C08", "C08_args_terminate"),     # the argument loop terminates on every line
+    ("DSP.C04", "C04_program"),            # flow-control model never gets stuck / Crash / Panic on well-nested programs
+    ("DSP.C11", "C11_nopanic"),            # scope push/pop/var commands never crash (any names, any state)
+    ("DSP.C16", "C16_substr_cmd_nopanic"),  # substring: value or error for any argument list
+    ("DSP.C16", "C16_never_ood"),          # the 16 string/range commands never panic
+    ("DSP.C18", "C18_join_total"),         # join_path's script loop terminates (on C09-safe arguments)
+    ("DSP.C19", "C19_leak_check_never_fires"),
 ]
 EXCLUDED = ("read sleep exec spawn exit quit q watchdog http_client wget ftp_get ftp_get_in_memory ftp_list ftp_nlst "
             "ftp_put ftp_put_in_memory hostname cd set_current_dir set_current_directory cp cp_glob glob_cp mv rm rmdir mkdir "
@@ -297,9 +306,25 @@ def witnesses(ck):
         "F25": "S\t" + enc_str("fn f\nreturn true\nend\nalias g f\nr = g\n"),
         "F23": "S\t" + enc_str("a = array x\narray_push ${a} ${a}\nr = json_encode --collection ${a}\n"),
     }
-    res = {}
-    for k, line in cases.items():
-        res[k] = run_cases(ck, [line], "wit" + k, per_case_timeout=8.0)[0]
+    exe = os.path.join(vlib.CARGO_TARGET, "release", "c07")
+
+    def limits():
+        resource.setrlimit(resource.RLIMIT_AS, (6 << 30, 6 << 30))
+        resource.setrlimit(resource.RLIMIT_CORE, (0, 0))
+
+    def one(item):
+        k, line = item
+        outp = os.path.join(d, "out_" + k)
+        try:
+            p = subprocess.run([exe, "--out", outp, "--work", os.path.join(d, "w_" + k)], input=(line + "\n").encode("utf8"),
+                               stdout=subprocess.DEVNULL, stderr=subprocess.DEVNULL, timeout=8.0, preexec_fn=limits)
+            got = open(outp).read().split("\n")[0] if os.path.exists(outp) else ""
+            return k, (got if got else "ABORT rc=%s" % p.returncode)
+        except subprocess.TimeoutExpired:
+            return k, "HANG"
+    from concurrent.futures import ThreadPoolExecutor
+    with ThreadPoolExecutor(max_workers=8) as ex:
+        res = dict(ex.map(one, cases.items()))
     shutil.rmtree(d, ignore_errors=True)
     return res
 
